@@ -208,7 +208,29 @@ impl<'a> Reader<&'a [u8]> for R2<'a> {
     }
 }
 
-/// Owning monitored reader, `T = Vec<u8>`: `bytes` hands out fresh vectors.
+/// What the owning reader hands out: a buffer that is wiped when it is released, so that a
+/// decoder which keeps a pointer into it after dropping it reads 0xdd octets instead of
+/// plausible stale data.
+#[derive(Clone, Debug, PartialEq, Eq)]
+pub struct Lease(pub Vec<u8>);
+
+impl core::borrow::Borrow<[u8]> for Lease {
+    fn borrow(&self) -> &[u8] {
+        &self.0
+    }
+}
+
+impl Drop for Lease {
+    fn drop(&mut self) {
+        for b in self.0.iter_mut() {
+            // volatile so that the wipe is not optimised away as a dead store
+            unsafe { std::ptr::write_volatile(b, 0xdd) };
+        }
+    }
+}
+
+/// Owning monitored reader, `T = Lease` (an owned buffer wiped on release): `bytes` hands out
+/// fresh buffers.
 pub struct R3<'a> {
     base: &'a [u8],
     start: usize,
@@ -231,7 +253,7 @@ impl<'a> R3<'a> {
     checked_reader_common!();
 }
 
-impl<'a> Reader<Vec<u8>> for R3<'a> {
+impl<'a> Reader<Lease> for R3<'a> {
     #[inline]
     fn is_empty(&self) -> bool {
         self.rem() == 0
@@ -255,7 +277,7 @@ impl<'a> Reader<Vec<u8>> for R3<'a> {
         r
     }
     #[track_caller]
-    fn bytes(&mut self, length: usize) -> Option<Vec<u8>> {
+    fn bytes(&mut self, length: usize) -> Option<Lease> {
         let avail = self.rem();
         self.mon.borrow_mut().note(Location::caller(), "bytes", avail, length, false);
         if length > avail {
@@ -265,7 +287,7 @@ impl<'a> Reader<Vec<u8>> for R3<'a> {
             return None;
         }
         let (s, k) = self.take(length);
-        Some(self.base[s..s + k].to_vec())
+        Some(Lease(self.base[s..s + k].to_vec()))
     }
     #[track_caller]
     unsafe fn read_u8_unchecked(&mut self) -> u8 {
@@ -289,6 +311,110 @@ impl<'a> Reader<Vec<u8>> for R3<'a> {
         self.mon.borrow_mut().note(Location::caller(), "skip_bytes", avail, length, true);
         let k = length.min(avail);
         self.start += k;
+    }
+}
+
+/// Slice-backed monitored reader whose position lives behind an `Rc<Cell<_>>` (a conforming
+/// reader need not be plain data: a bitwise copy of it shares the position with the original).
+pub struct R4<'a> {
+    base: &'a [u8],
+    pos: std::rc::Rc<std::cell::Cell<usize>>,
+    end: usize,
+    mon: &'a RefCell<Mon>,
+}
+
+impl<'a> R4<'a> {
+    pub fn new(base: &'a [u8], mon: &'a RefCell<Mon>) -> Self {
+        R4 {
+            base,
+            pos: std::rc::Rc::new(std::cell::Cell::new(0)),
+            end: base.len(),
+            mon,
+        }
+    }
+    #[inline]
+    fn rem(&self) -> usize {
+        self.end - self.pos.get()
+    }
+    #[inline]
+    fn take(&mut self, n: usize) -> (usize, usize) {
+        let k = n.min(self.rem());
+        let s = self.pos.get();
+        self.pos.set(s + k);
+        (s, k)
+    }
+    #[inline]
+    fn read_n(&mut self, n: usize, loc: &'static Location<'static>, method: &'static str) -> u64 {
+        let avail = self.rem();
+        self.mon.borrow_mut().note(loc, method, avail, n, true);
+        if avail < n {
+            self.pos.set(self.end);
+            return 0;
+        }
+        let (s, _) = self.take(n);
+        let mut v = 0u64;
+        for i in 0..n {
+            v = (v << 8) | self.base[s + i] as u64;
+        }
+        v
+    }
+}
+
+impl<'a> Reader<&'a [u8]> for R4<'a> {
+    #[inline]
+    fn is_empty(&self) -> bool {
+        self.rem() == 0
+    }
+    #[inline]
+    fn len(&self) -> usize {
+        self.rem()
+    }
+    #[track_caller]
+    fn subreader(&mut self, length: usize) -> Self {
+        let avail = self.rem();
+        self.mon.borrow_mut().note(Location::caller(), "subreader", avail, length, true);
+        let k = length.min(avail);
+        let s = self.pos.get();
+        self.pos.set(s + k);
+        R4 {
+            base: self.base,
+            pos: std::rc::Rc::new(std::cell::Cell::new(s)),
+            end: s + k,
+            mon: self.mon,
+        }
+    }
+    #[track_caller]
+    fn bytes(&mut self, length: usize) -> Option<&'a [u8]> {
+        let avail = self.rem();
+        self.mon.borrow_mut().note(Location::caller(), "bytes", avail, length, false);
+        if length > avail {
+            return None;
+        }
+        let (s, k) = self.take(length);
+        Some(&self.base[s..s + k])
+    }
+    #[track_caller]
+    unsafe fn read_u8_unchecked(&mut self) -> u8 {
+        self.read_n(1, Location::caller(), "read_u8") as u8
+    }
+    #[track_caller]
+    unsafe fn read_u16_be_unchecked(&mut self) -> u16 {
+        self.read_n(2, Location::caller(), "read_u16") as u16
+    }
+    #[track_caller]
+    unsafe fn read_u32_be_unchecked(&mut self) -> u32 {
+        self.read_n(4, Location::caller(), "read_u32") as u32
+    }
+    #[track_caller]
+    unsafe fn read_u64_be_unchecked(&mut self) -> u64 {
+        self.read_n(8, Location::caller(), "read_u64")
+    }
+    #[track_caller]
+    fn skip_bytes(&mut self, length: usize) {
+        let avail = self.rem();
+        self.mon.borrow_mut().note(Location::caller(), "skip_bytes", avail, length, true);
+        let k = length.min(avail);
+        self.pos.set(self.pos.get() + k);
     }
 }
 
